@@ -360,7 +360,7 @@ def description_case(ctx, sut, text, serial, hostile):
 
 def random_description(rng):
     pool = "ab \"'\\\n\t{}%é日\r\x00#:"
-    text = "".join(rng.choice(pool) for _ in range(rng.randint(0, 12)))
+    text = "".join(rng.choice(pool) for _ in range(rng.choice([rng.randint(0, 12), rng.randint(40, 160)])))
     if rng.random() < 0.2:
         text += rng.choice(['"', '\\', '"""', "'''", "\n", " "])
     return text
